@@ -268,6 +268,12 @@ def check_decoders(pm, rep, ci, fq, got, rows, const_fields=None):
                     l2 = l2.subst({a: priv[a[1]] for a in l2 if isinstance(a, tuple) and a[0] == "priv" and a[1] in priv})
                     rep.check(l2 == Lin.atom(("len", attr)), "decoder", fq, f"{attr} length {l2.show()}", f"decoder must read exactly the announced length of {attr}", mod=mod, node=node)
                 rep.check(func in ("self._wrap_bytes", "self._wrap_uid_bytes"), "decoder", fq, f"{attr} via {func}", "variable field is handed over as bytes", mod=mod, node=node)
+                if func == "self._wrap_uid_bytes":
+                    # the only lossy hand-over (drops one trailing NUL): lossless exactly for UID-valued fields,
+                    # whose legal values never end in NUL - i.e. attributes whose setter goes through set_uid
+                    st = pm.repo.lookup_method(ci, attr, "setter")
+                    is_uid = st[1] is not None and any(isinstance(c, ast.Call) and (dotted(c.func) or "").split(".")[-1] == "set_uid" for c in ast.walk(st[1]))
+                    rep.check(is_uid, "decoder", fq, f"{attr} via {func}", f"_wrap_uid_bytes strips a trailing 0x00; {attr} is not a UID (its setter does not use set_uid), so a legal value ending in 0x00 decodes one byte short: decode(encode(x)) != x", mod=mod, node=node)
             elif k == "items":
                 rep.check(length is None and func == "self._wrap_generate_items", "decoder", fq, f"{attr} via {func}", "item list is parsed to the end of the PDU/item", mod=mod, node=node)
             elif k == "uidlist":
